@@ -1,6 +1,7 @@
 package small
 
 import (
+	"os"
 	"fmt"
 	"go/ast"
 	"sort"
@@ -28,7 +29,19 @@ func poolByEval(pk *packages.Package, ctor, get *ast.FuncDecl, sizes []int) (pro
 	in.Budget = 4000000
 	seenSize := map[int]bool{}
 	var family []int
-	for _, n := range append([]int{1, 2, 3, 4, 5, 6, 7, 8, 16}, sizes...) {
+	base := []int{1, 2, 3, 4, 5, 6, 7, 8, 16}
+	rounds := 2
+	if os.Getenv("VERIF_TIER") == "thorough" {
+		// every size up to 64, powers of two up to 4096, their neighbours; four block boundaries
+		for n := 9; n <= 64; n++ {
+			base = append(base, n)
+		}
+		for n := 128; n <= 4096; n *= 2 {
+			base = append(base, n-1, n, n+1)
+		}
+		rounds = 4
+	}
+	for _, n := range append(base, sizes...) {
 		if n >= 1 && n <= 1<<14 && !seenSize[n] {
 			seenSize[n] = true
 			family = append(family, n)
@@ -46,7 +59,7 @@ func poolByEval(pk *packages.Package, ctor, get *ast.FuncDecl, sizes []int) (pro
 		}
 		pool := out[0]
 		seen := map[*ceval.Struct]int{}
-		for k := 1; k <= 2*size+3; k++ {
+		for k := 1; k <= rounds*size+3; k++ {
 			scenarios++
 			out, st, why := in.Call(get, pool, nil)
 			if st == ceval.Panic {
